@@ -546,8 +546,9 @@ Fixpoint b0_iss_open (keys : bool) (k : N) (ins : list b0_in) (ps : list b0_ent)
   end.
 
 (* Blinder.Blind.  sel = keys of blindingPubKeyByOutputIndex; keys = issuance blinding keys given;
-   sok = every surjection proof could be generated *)
-Definition b0_blind (ins : list b0_in) (outs : list b0_out) (sel : list N) (keys sok : bool)
+   tokkey = they carry a token key (IssuanceBlindingPrivateKeys.TokenKey); sok = every surjection
+   proof could be generated *)
+Definition b0_blind (ins : list b0_in) (outs : list b0_out) (sel : list N) (keys tokkey sok : bool)
   (rng : list bytes) : bres b0_result :=
   match b0_pseudo keys 0%N ins rng with
   | None => BErr
@@ -578,7 +579,10 @@ Definition b0_blind (ins : list b0_in) (outs : list b0_out) (sel : list N) (keys
                       match b0_writeback (filter (fun i => match bl_nth outs i with Some o => negb (bo0_noscript o) | None => false end) ssel) arr' start with
                       | BPanic => BPanic
                       | BErr => BErr
-                      | BOk w => BOk (bmk_b0res w (b0_iss_open keys 0%N ins pseudo))
+                      | BOk w =>
+                          (* blindInputs: blindToken refuses a missing token key *)
+                          if keys && negb tokkey && existsb (fun i => (bi0_iss i =? 1)%N && (0 <? bi0_isst i)) ins then BErr
+                          else BOk (bmk_b0res w (b0_iss_open keys 0%N ins pseudo))
                       end
                   end
               end
